@@ -382,6 +382,10 @@ func TestC03(t *testing.T) {
 		c.IsRegular = rapid.Bool().Draw(t, "is_regular")
 		c.CodecRS = rapid.SampledFrom([]int{1, 2, 3, 7, 20, 64, 127, 128, 129, 256, 512, 1024, 2048, 4096}).Draw(t, "codec_rs")
 		c.Size = drawContentSize(t, cfg.RecordSize)
+		if guard("F-33") && cfg.Compression == "parallelbzip2" && cfg.Encryption == "pgp" && c.Size > 90000 && c.Layer != "codec" {
+			c.Size = 90000
+			live.S.Exclude("F-33")
+		}
 		c.Dist = rapid.IntRange(0, 3).Draw(t, "dist")
 		c.Seed = rapid.Uint64Range(0, 1<<20).Draw(t, "seed")
 		c.Chunks = rapid.IntRange(1, 4).Draw(t, "chunks")
@@ -397,3 +401,23 @@ func init() {
 		c03Run(t, c.Cfg, cc)
 	}
 }
+
+// sizeOracle: after every call Stat size, index size and readable length of every file
+// agree (replay oracle of size findings).
+type sizeOracle struct{}
+
+func (sizeOracle) Before(x *hctx, s hist.Step) {}
+func (sizeOracle) After(x *hctx, s hist.Step, res hist.Res, mres hist.MRes) string {
+	snap, e := observe.Snapshot(hist.Call, x.r.W.FS, true)
+	checkObs(x.f, e, "snapshot")
+	for _, en := range snap.Entries {
+		if en.Kind == "file" && en.ReadErr == "" && en.Size != en.Len {
+			return fmt.Sprintf("%s: reported size %d, content length %d", en.Path, en.Size, en.Len)
+		}
+	}
+	return ""
+}
+func (sizeOracle) End(x *hctx) string      { return "" }
+func (sizeOracle) Nontrivial(x *hctx) bool { return true }
+
+func init() { historyOracles["C03X"] = func() oracle { return sizeOracle{} } }
